@@ -129,6 +129,11 @@ def match_finding(findings: list, prop: str, sig: dict):
                     ok = False
                     break
                 continue
+            if k == 'shape_prefix':
+                if not str(sig.get('shape', '')).startswith(want):
+                    ok = False
+                    break
+                continue
             if k == 'type_kind_prefix':
                 if not str(sig.get('type_kind', '')).startswith(want):
                     ok = False
@@ -164,6 +169,9 @@ class Report:
         self.known_seen: dict = {}      # finding id -> count
         self.skipped = 0
         self.findings = load_findings()
+        import glob
+        for old in glob.glob(os.path.join(VERIF, 'replays', f'{prop}-*.json')):
+            os.remove(old)
         self.exhaustive = False
         self.notes: list = []
 
